@@ -37,7 +37,7 @@ fn gen_name(rng: &mut Rng, uniq: usize) -> String {
 
 fn gen_comment(rng: &mut Rng) -> String {
     let c = ["c", "&&NHX:S=human:E=1.1.1.1", "a b", "(x,y);", "\"", "[[", "é ü", ":1.5", " "];
-    rng.pick(&c).to_string()
+    if rng.chance(1, 2) { rng.pick(&c).to_string() } else { rng.pick(MAGIC_COMMENTS).to_string() }
 }
 
 pub fn label_c01(rng: &mut Rng, t: &mut Rose, kind: LenKind, len_mode: LenMode) {
